@@ -45,6 +45,9 @@ static void family_of(Rng& r, const Str& seed, StrVec* out) {
     { Comp x = b; x.hasQuery = !x.hasQuery; x.query = ""; add(x); x = b; x.hasQuery = true; x.query = b.query + "k"; add(x); }
     { Comp x = b; x.hasFrag = !x.hasFrag; x.frag = ""; add(x); x = b; x.hasFrag = true; x.frag = b.frag + "k"; add(x); }
     { Comp x = b; std::swap(x.query, x.frag); std::swap(x.hasQuery, x.hasFrag); add(x); }
+    // a component that is another member's plus 256 (or 65536) characters: equal only to a comparison that keeps lengths in 8 / 16 bits
+    if (r.chance(1, 6)) { Str pad(r.chance(1, 4) ? 65536 : 256, 'a'); Comp x = b; int w = (int)r.below(4);
+        if (w == 0) { x.hasQuery = true; x.query = b.query + pad; } else if (w == 1) { x.hasFrag = true; x.frag = b.frag + pad; } else if (w == 2) x.path += (x.path.empty() && x.hasAuth ? "/" : "") + pad; else if (x.hasAuth) { x.hasUser = true; x.user = b.user + pad; } add(x); }
     std::set<Str> seen;
     for (const Comp& x : v) {
         Str t;      // render with the host text as written (not the canonical IPv6 form), to get different spellings of one address
@@ -86,6 +89,34 @@ template <class X> void run(Ctx& c, const StrVec& fam) {
     for (size_t i = 0; i < n; i++) for (size_t j = 0; j < n; j++) if (eq[i][j]) for (size_t k = 0; k < n; k++) if (eq[j][k] && !eq[i][k])
         c.violation("C11", fmt("equals/%s/not-transitive", X::tag()), fmt("a=\"%s\" b=\"%s\" c=\"%s\"", esc(box[i]->srcText).c_str(), esc(box[j]->srcText).c_str(), esc(box[k]->srcText).c_str()));
     for (size_t i = 0; i < n; i++) if (deep_snapshot<X>(box[i]->u) != snaps[i]) c.violation("C11", fmt("equals/%s/argument-modified", X::tag()), fmt("a=\"%s\"", esc(box[i]->srcText).c_str()));
+    // twins: the same text parsed out of two larger buffers that go on differently behind the range (an empty component at the very end
+    // of the URI must not be compared by what happens to follow it in memory), borrowed and owned
+    for (size_t i = 0; i < n && i < 6; i++) {
+        const Str& t = box[i]->srcText; typename X::S b1 = widen<X>(t + "Xq#1:/"), b2 = widen<X>(t + "?y@[2]%");
+        typename X::Uri u1, u2; const typename X::Char* ep; int r1, r2;
+        { LibScope ls; r1 = X::ParseSingleUriEx(&u1, b1.data(), b1.data() + t.size(), &ep); r2 = X::ParseSingleUriEx(&u2, b2.data(), b2.data() + t.size(), &ep); }
+        if (r1 == URI_SUCCESS && r2 == URI_SUCCESS) {
+            if (i & 1) { LibScope ls; X::MakeOwner(&u2); }
+            int e1, e2, e3; { LibScope ls; e1 = X::EqualsUri(&u1, &u2); e2 = X::EqualsUri(&u2, &u1); e3 = X::EqualsUri(&box[i]->u, &u1); } c.evaluations += 3;
+            if (!e1 || !e2 || !e3) c.violation("C11", fmt("equals/%s/twins-in-different-buffers-not-equal", X::tag()), fmt("a=b=\"%s\" equals(a,b)=%d equals(b,a)=%d equals(separate,a)=%d", esc(t).c_str(), e1, e2, e3));
+            else c.count("twins_equal");
+        }
+        { LibScope ls; if (r1 == URI_SUCCESS) X::FreeUriMembers(&u1); if (r2 == URI_SUCCESS) X::FreeUriMembers(&u2); }
+    }
+    // wchar_t only: an owned copy in which one character is replaced by a character above U+00FF with the same low byte (no parser
+    // produces it, a caller filling in a structure can): never equal to the original
+    if (sizeof(typename X::Char) > 1) for (size_t i = 0; i < n && i < 4; i++) {
+        UriBox<X> m; if (m.parse(box[i]->srcText) != URI_SUCCESS || m.make_owner() != URI_SUCCESS) continue;
+        typename X::Range* rs[] = {&m.u.scheme, &m.u.userInfo, &m.u.hostText, &m.u.portText, &m.u.query, &m.u.fragment}; std::vector<typename X::Char*> pos;
+        if (m.u.hostData.ip4 || m.u.hostData.ip6 || m.u.hostData.ipFuture.first) rs[2] = nullptr;
+        for (auto* rg : rs) if (rg && rg->first) for (const typename X::Char* q = rg->first; q < rg->afterLast; q++) pos.push_back((typename X::Char*)q);
+        for (auto* sg = m.u.pathHead; sg; sg = sg->next) for (const typename X::Char* q = sg->text.first; q < sg->text.afterLast; q++) pos.push_back((typename X::Char*)q);
+        if (pos.empty()) continue;
+        typename X::Char* q = pos[c.rng.below((uint32_t)pos.size())]; *q = (typename X::Char)((unsigned)*q | (c.rng.coin() ? 0x100u : 0x10000u));
+        int e1, e2; { LibScope ls; e1 = X::EqualsUri(&box[i]->u, &m.u); e2 = X::EqualsUri(&m.u, &box[i]->u); } c.evaluations += 2;
+        if (e1 || e2) c.violation("C11", fmt("equals/%s/wide-character-equal-to-its-low-byte", X::tag()), fmt("a=\"%s\" b = a with one character or-ed with 0x100/0x10000: equals=%d/%d", esc(box[i]->srcText).c_str(), e1, e2));
+        else c.count("wide_modified_differs");
+    }
     if (n) {
         int a, b2, d; { LibScope ls; a = X::EqualsUri(nullptr, nullptr); b2 = X::EqualsUri(&box[0]->u, nullptr); d = X::EqualsUri(nullptr, &box[0]->u); }
         c.evaluations += 3;
